@@ -34,6 +34,10 @@ impl Ty for Eth {
             }),
         ]
     }
+    fn ser_special(v: &Self::V, r: &[u8]) -> Vec<(&'static str, Vec<u8>, Vec<u8>)> {
+        let w = LinkHeader::Ethernet2(v.clone());
+        vec![("LinkHeader::Ethernet2.write", wr(|o| w.write(o).unwrap()), r.to_vec()), ("LinkHeader::Ethernet2.header_len", (w.header_len() as u64).to_be_bytes().to_vec(), (r.len() as u64).to_be_bytes().to_vec())]
+    }
     fn dec0(b: &[u8]) -> Dec<Self::V> {
         sl(b, Ethernet2Header::from_slice(b))
     }
@@ -113,6 +117,10 @@ impl Ty for Sll {
                 buf[..19 - n].to_vec()
             }),
         ]
+    }
+    fn ser_special(v: &Self::V, r: &[u8]) -> Vec<(&'static str, Vec<u8>, Vec<u8>)> {
+        let w = LinkHeader::LinuxSll(v.clone());
+        vec![("LinkHeader::LinuxSll.write", wr(|o| w.write(o).unwrap()), r.to_vec()), ("LinkHeader::LinuxSll.header_len", (w.header_len() as u64).to_be_bytes().to_vec(), (r.len() as u64).to_be_bytes().to_vec())]
     }
     fn dec0(b: &[u8]) -> Dec<Self::V> {
         sl(b, LinuxSllHeader::from_slice(b))
